@@ -694,6 +694,7 @@ func c17Writers(bound int) vh.Unit {
 // no close semantics of their own; the codecs' Close runs against the kernel's here.
 func c17TCPCloseAfterBurst() vh.Unit {
 	return vh.Unit{Name: "tcp/close-right-after-a-burst", Run: func(u *vh.U) {
+		vsched.SetVirtualClock(false) // real sockets, real time
 		const n, size = 400, 16 << 10
 		for _, kind := range []string{"gorilla", "gobwas"} {
 			for _, dir := range []string{"client-to-server", "server-to-client"} {
@@ -793,6 +794,7 @@ func c17TCPCloseAfterBurst() vh.Unit {
 // reads are the messages, whole and in order, and nobody panics.
 func c17TCPPingWhileWriting() vh.Unit {
 	return vh.Unit{Name: "tcp/ping-while-large-messages-in-flight", Run: func(u *vh.U) {
+		vsched.SetVirtualClock(false) // real sockets, real time
 		const n, size = 6, 2 << 20
 		for _, role := range []string{"server-codec", "client-codec"} {
 			ln, err := net.Listen("tcp", "127.0.0.1:0")
@@ -949,6 +951,7 @@ func c17TCPPingWhileWriting() vh.Unit {
 // arrives, whole and in order.
 func c17TCPStalledReader() vh.Unit {
 	return vh.Unit{Name: "tcp/stream-reader-stalls-mid-message", Run: func(u *vh.U) {
+		vsched.SetVirtualClock(false) // real sockets, real time
 		ln, err := net.Listen("tcp", "127.0.0.1:0")
 		if err != nil {
 			u.R.Infra = err.Error()
@@ -987,6 +990,7 @@ func c17TCPStalledReader() vh.Unit {
 		}()
 		// the reader: a few kB, then nothing for 6.5 s, then the rest - through the codec under test
 		head := make([]byte, 64<<10)
+		rconn.SetReadDeadline(time.Now().Add(90 * time.Second))
 		nHead, _ := io.ReadFull(rconn, head)
 		time.Sleep(6500 * time.Millisecond)
 		rd := jsonrpc2.IOCodec(struct {
